@@ -78,9 +78,14 @@ impl C {
 
 fn term(a: &A, vars: &[T]) -> T { match a { A::V(v) => vars[*v].clone(), A::K(k) => LTerm::from(*k) } }
 
-fn build(prog: &[C], vars: &[T], q: &T, compound: bool) -> Goal<U, E> {
+fn build(prog: &[C], vars: &[T], q: &T, variant: u8) -> Goal<U, E> {
     // the query term: the list [x0, x1, x2], or [(x0, x1), x2] with a compound (tuple) term inside
-    let qterm: T = if compound { LTerm::from_vec(vec![Into::<T>::into((vars[0].clone(), vars[1].clone())), vars[2].clone()]) } else { LTerm::from_vec(vars.to_vec()) };
+    let qterm: T = match variant {
+        1 => LTerm::from_vec(vec![Into::<T>::into((vars[0].clone(), vars[1].clone())), vars[2].clone()]),
+        2 => LTerm::from_vec(vec![Into::<T>::into(Some(Some(Some((vars[0].clone(), vars[1].clone()))))), vars[2].clone()]),
+        3 => LTerm::from_vec(vec![vars[0].clone()]),
+        _ => LTerm::from_vec(vars.to_vec()),
+    };
     let mut goals: Vec<Goal<U, E>> = vec![Eq::new::<Goal<U, E>>(q.clone(), qterm).cast_into()];
     for c in prog {
         let g: Goal<U, E> = match c {
@@ -101,16 +106,16 @@ fn build(prog: &[C], vars: &[T], q: &T, compound: bool) -> Goal<U, E> {
     Conj::from_vec(goals)
 }
 
-fn run_real(prog: &[C], compound: bool) -> Vec<Vec<Option<isize>>> {
+fn run_real(prog: &[C], variant: u8) -> Vec<Vec<Option<isize>>> {
     let vars: Vec<T> = vec![LTerm::var("x0"), LTerm::var("x1"), LTerm::var("x2")];
     let q: T = LTerm::var("q");
-    let goal = build(prog, &vars, &q, compound);
+    let goal = build(prog, &vars, &q, variant);
     let mut solver: Solver<U, E> = Solver::new((), false);
     let mut stream = solver.start(&goal, State::new(DefaultUser::new()));
     let mut out = vec![];
     while out.len() < 5000 {
         match solver.next(&mut stream) {
-            Some(st) => out.push(vars.iter().map(|v| st.smap_ref().walk_star(v).get_number()).collect()),
+            Some(st) => out.push(vars.iter().take(if variant == 3 { 1 } else { NV }).map(|v| st.smap_ref().walk_star(v).get_number()).collect()),
             None => break,
         }
     }
@@ -136,12 +141,15 @@ fn check(rep: &mut Report, prog: &[C]) {
     let neg = doms.iter().any(|d| d.iter().any(|x| *x < 0)) || prog.iter().any(|c| format!("{:?}", c).contains("K(-"));
     let class = if prog.iter().any(|c| matches!(c, C::Times(..))) && neg { "times-negative" } else if prog.iter().any(|c| matches!(c, C::Times(..))) { "times" } else if prog.iter().any(|c| c.class() == "alias") { "alias" } else { "plain" };
     let exp = solutions(prog, &doms);
-    for compound in [false, true] {
-    let inp = if compound { format!("{} [compound-query]", inp) } else { inp.clone() };
-    let class = if compound { "compound-query" } else { class };
+    for variant in 0u8..4 {
+    let vname = ["", " [compound-query]", " [nested-compound-query]", " [hidden-variables]"][variant as usize];
+    let inp = format!("{}{}", inp, vname);
+    let class = if variant == 0 { class } else { &vname[2..vname.len() - 1] };
+    // with hidden variables only x0 is observed: every value of x0 that extends to a solution, once
+    let exp: Vec<Vec<isize>> = if variant == 3 { let mut e: Vec<Vec<isize>> = exp.iter().map(|s| vec![s[0]]).collect(); e.sort(); e.dedup(); e } else { exp.clone() };
     rep.case("fd-program", inp.clone());
     let p = prog.to_vec();
-    match guard_timeout(move || run_real(&p, compound), 20) {
+    match guard_timeout(move || run_real(&p, variant), 20) {
         Err(e) if e == "TIMEOUT" => { rep.fail("sound", inp.clone(), "termination".into(), "no result within 20 s".into(), "diverges"); rep.print(); std::process::exit(0); }
         Err(e) => rep.fail("sound", inp.clone(), format!("{} solutions", exp.len()), e, "panic"),
         Ok(got) => {
@@ -149,8 +157,9 @@ fn check(rep: &mut Report, prog: &[C]) {
             for g in &got {
                 if g.iter().any(|x| x.is_none()) { rep.fail("complete", inp.clone(), "ground answers (every FD variable labeled)".into(), format!("{:?}", g), class); break; }
                 let asg: Vec<isize> = g.iter().map(|x| x.unwrap()).collect();
-                if !prog.iter().all(|k| k.holds(&asg)) { rep.fail("sound", inp.clone(), format!("an assignment satisfying every constraint; solutions are {:?}", exp), format!("{:?}", asg), class); break; }
+                if variant != 3 && !prog.iter().all(|k| k.holds(&asg)) { rep.fail("sound", inp.clone(), format!("an assignment satisfying every constraint; solutions are {:?}", exp), format!("{:?}", asg), class); break; }
             }
+            if variant == 3 { for g in &got { if let Some(Some(x)) = g.get(0) { if !exp.iter().any(|e| e[0] == *x) { rep.fail("sound", inp.clone(), format!("a value of x0 that extends to a solution: {:?}", exp), format!("{:?}", g), class); break; } } } }
             // completeness + exactly once
             let mut gs: Vec<Vec<isize>> = got.iter().filter(|g| g.iter().all(|x| x.is_some())).map(|g| g.iter().map(|x| x.unwrap()).collect()).collect();
             gs.sort();
@@ -174,6 +183,8 @@ fn gen(r: &mut Rng, signed: bool) -> Vec<C> {
         if r.below(3) == 0 {
             let mut d: Vec<isize> = (lo..=hi).filter(|_| r.below(2) == 0).collect();
             if d.is_empty() { d.push(lo + r.below((hi - lo + 1) as usize) as isize); }
+            // the list is given to infd as written: unsorted and with a repeated element now and then
+            if r.below(2) == 0 { let k = r.below(d.len()); let x = d[k]; d.push(x); for i in (1..d.len()).rev() { let j = r.below(i + 1); d.swap(i, j); } }
             prog.push(C::Dom(v, d));
         } else {
             let a = lo + r.below((hi - lo + 1) as usize) as isize; let b = a + r.below((hi - a + 1) as usize) as isize;
@@ -216,7 +227,7 @@ pub fn search(tier: &str, seed: u64, only: Option<&str>) {
 pub fn replay(input: &str) {
     // input: "<check> <program text>" in the format printed by show()
     let body = input.splitn(2, ' ').nth(1).unwrap_or(input);
-    let body = body.trim_end_matches(" [compound-query]");
+    let body = body.trim_end_matches(" [compound-query]").trim_end_matches(" [nested-compound-query]").trim_end_matches(" [hidden-variables]");
     let op = |s: &str| -> A { if let Some(r) = s.strip_prefix('x') { A::V(r.parse().unwrap()) } else { A::K(s.parse().unwrap()) } };
     let mut prog = vec![];
     for c in body.split(';') {
